@@ -113,6 +113,9 @@ def first_line_shape(line: str) -> list[str]:
         return ["not-an-item"]
     kind, gap, rest = m.groups()
     feats = []
+    if rest.strip(" ") == "" or (kind != "-" and re.fullmatch(r"P\d +", rest)):
+        # nothing but the prefix on the first line (the text starts on a continuation line)
+        return ["empty-first-line"] + (["crlf"] if line.endswith("\r") else [])
     if len(gap) > 1:
         feats.append("multi-space-after-kind")
     if "  " in rest.strip():
